@@ -829,7 +829,7 @@ def process(ctx, corr, tagged, stop_after=3):
             def bad(t):
                 _, _, vv = judge_text(ctx, t)
                 return isinstance(vv, tuple) and vv[0] == 'violation'
-            small = shrink(ctx, c['text'], bad, budget=30 if c['C'][0] == 'hang' else 120)
+            small = shrink(ctx, c['text'], bad, budget=25 if c['C'][0] in ('hang', 'crash') else 120)
             c2, _, v2 = judge_text(ctx, small)
             if not (isinstance(v2, tuple) and v2[0] == 'violation'):
                 small, c2, v2 = c['text'], c, v
@@ -853,7 +853,7 @@ def macro_c(ctx, corr):
     os.makedirs(wd, exist_ok=True)
     src = os.path.join(wd, 'macro.c')
     open(src, 'w').write('\n'.join(lines) + '\n')
-    rc1, o1, e1 = sh([ctx.cc, '-E', '-I' + tdir, src], cwd=tdir, timeout=60)
+    rc1, o1, e1 = sh(([_PRLIMIT, '--as=3221225472'] if _PRLIMIT else []) + [ctx.cc, '-E', '-I' + tdir, src], cwd=tdir, timeout=20)
     rc2, o2, e2 = sh(['gcc', '-E', '-P', '-undef', '-D__chibicc__=1', '-I' + tdir, src], cwd=tdir, timeout=60)
     corr.evaluations += 1
     corr.count('macro.c')
@@ -928,6 +928,11 @@ def correspond(ctx, corr):
             corr.known_hits.append(fid)
         else:
             corr.extra.setdefault('known_finding_notes', []).append(f'the witness of {fid} now expands like gcc: the finding can be retired')
+    # termination smoke test first: when self-reference does not stop, everything below would only time out
+    smoke = [('smoke', '#define z z\nz\n'), ('smoke', '#define T U\n#define U T\nT U\n'), ('smoke', '#define f(x) x f(x)\nf(1)\n')]
+    process(ctx, corr, smoke)
+    if [v for v in corr.violations if not v.get('known_id')]:
+        return
     chunk = 250
     for i in range(0, len(tagged), chunk):
         cases = process(ctx, corr, tagged[i:i + chunk])
